@@ -15,12 +15,15 @@ from cflib.crtp.crtpstack import CRTPPacket
 
 class Config:
     def __init__(self, n_log=3, n_param=2, fault_at=None, fault_mode='driver', log_crc=0x11111111, par_crc=0x22222222,
-                 needs_resending=False, hold_after=None, dup_notify=False):
+                 needs_resending=False, hold_after=None, dup_notify=False, dup_after=None):
         self.n_log, self.n_param = n_log, n_param
         self.fault_at, self.fault_mode = fault_at, fault_mode
         self.log_crc, self.par_crc = log_crc, par_crc
         self.needs_resending = needs_resending
         self.hold_after = hold_after     # device stops answering after this many exchanged packets (silent peer)
+        # [port, channel, first data byte, k]: the reply to that request is delivered a second time once k more
+        # packets have been exchanged (a re-sent request answered twice, the second answer late)
+        self.dup_after = dup_after
         self.dup_notify = dup_notify     # firmware re-announces parameter 0 (value-updated notifications) during the download
 
 
@@ -119,6 +122,10 @@ class FakeLink(CRTPDriver):
     def _tick(self):
         self.count += 1
         c = self.cfg
+        for item in list(getattr(self, '_late', [])):
+            if self.count >= item[0]:
+                self._late.remove(item)
+                self._reply(*item[1])
         if c.fault_at is not None and self.count >= c.fault_at and not self.fault_done and c.fault_mode == 'driver':
             self.fault_ev.set()
 
@@ -136,6 +143,12 @@ class FakeLink(CRTPDriver):
         pk.set_header(port, chan)
         pk.data = bytes(data)
         self.q.put(pk)
+        d = c.dup_after
+        if d and (port, chan) == (d[0], d[1]) and bytes(data)[:1] == bytes([d[2]]) and not getattr(self, '_dup_done', False):
+            self._dup_done = True
+            if not hasattr(self, '_late'):
+                self._late = []
+            self._late.append((self.count + d[3], (port, chan, bytes(data))))
 
     def send_packet(self, pk):
         d = bytes(pk.data)
